@@ -20,6 +20,7 @@ EXPLANATION = (    "Escalation shape of Watcher.kill_process decided on its CFG:
     "and the SIGKILL is recursive; R6 every termination cause goes through "
     "kill_process and no other watcher code sends a terminating signal. "
     "R7 (shared with C04 R2) a worker is untracked only after its termination routine reported completion or it is dead, because an untracked pid is never signalled. "
+    "R8 (shared with C02 R2) kill_process returns true only after Process.stop() and never leaves its stopping flag set. "
     "Decides these necessary conditions, not wall-clock accuracy.")
 ASSUMPTIONS = ["posix platform (hasattr(signal,'SIGKILL') true)"]
 
@@ -68,10 +69,26 @@ def check(run, ctx):
     r4(run, ctx, f, cfg, stop, loops)
     r5(run, ctx, f, cfg, stop, kill)
     r6(run, ctx)
+    from rules import c02
+    run.share(ctx, c02.r2, 'R2', 'R8', 'kill_process reports completion (true) only after the '
+              'termination routine ran to its end, and releases its re-entrancy flag on every '
+              'exit (shared with C02 R2): callers drop the worker on a true result, and a dropped '
+              'worker is never sent SIGKILL')
     from rules import c04
     run.share(ctx, c04.r2, 'R2', 'R7', 'a worker is untracked only after its termination routine '
               'reported completion or it is dead (shared with C04 R2): Watcher.send_signal only '
               'signals tracked pids, so untracking early drops the SIGKILL of an in-flight kill')
+
+
+def r5_standalone(run, ctx):
+    """R5 for properties that share it (C08: a shutdown must not hang on a worker whose
+    SIGKILL was lost)."""
+    f = ctx.fn(W + 'kill_process')
+    cfg = ctx.cfg(f)
+    stop, kill = _sends(ctx, f)
+    if run.need('R5', stop, 'stop-signal send in kill_process', f) and \
+            run.need('R5', kill, 'SIGKILL send in kill_process', f):
+        r5(run, ctx, f, cfg, stop, kill)
 
 
 def r1(run, ctx, f, cfg, stop, kill, loops):
@@ -276,6 +293,20 @@ def r5(run, ctx, f, cfg, stop, kill):
                       construct='child lookup not recursive')
     run.need('R5', parent, 'signal to the worker itself in send_signal_process', g)
     run.need('R5', childs, 'signal to each child in send_signal_process', g)
+    # a child that vanished between enumeration and delivery (NoSuchProcess) must not stop
+    # the others, and above all not the worker itself, from being signalled
+    for cn in childs:
+        after_exc = [c2.nodes[i] for i, lab in c2.succ[cn.id] if lab == 'exc'
+                     and c2.nodes[i].kind == 'except']
+        for hn in after_exc:
+            r_ = c2.reach(hn, avoid=parent, labels_excluded=('exc', 'raise', 'reraise'),
+                          include_src=True)
+            run.check('R5', c2.exit.id not in r_, 'a vanished child does not keep the signal '
+                      'from the worker itself', g, cn.ast,
+                      'when one child is already gone (NoSuchProcess) send_signal_process returns '
+                      'without signalling the remaining children and the worker: the final '
+                      'SIGKILL is lost and the stop path waits for a worker that never dies',
+                      construct='child failure skips the worker')
     for n in childs:
         hdr = [h for h in c2.nodes if h.kind == 'iter' and n.id in c2.branch_nodes(h, 'true')]
         run.check('R5', bool(hdr) and 'children' in norm_text(hdr[0].ast.iter),
